@@ -42,6 +42,14 @@ Record variant := { fix_memmove : bool; fix_loops : bool; fix_arity : bool; fix_
 Definition Cur : variant := {| fix_memmove := true; fix_loops := true; fix_arity := true; fix_tm := true |}.
 Definition Fixed : variant := {| fix_memmove := true; fix_loops := true; fix_arity := true; fix_tm := true |}.
 
+(* SECOND SWITCH: fixes proposed in /verif/patches and not yet in /repo; set to true when committed:
+   fix-C07-synthetic-memcache-level.diff (MemCache rejected as a level type),
+   fix-C07-synthetic-width-overflow.diff (totalarity and nbs products guarded against wrap-around) *)
+Definition fix_memcache_level : bool := false.
+Definition fix_width_overflow : bool := false.
+(* fix-C07-synthetic-intlv-deeper-level.diff: assert(nb); assert(step) replaced by an error *)
+Definition fix_intlv_deeper : bool := false.
+
 Definition MAXD : N := HWLOC_SYNTHETIC_MAX_DEPTH.
 Definition U32 : N := 4294967296.
 Definition M1 : N := 4294967295.            (* (unsigned)-1, also HWLOC_OBJ_TYPE_NONE as unsigned *)
@@ -280,7 +288,7 @@ Fixpoint count_colons (fuel : nat) s (tmp lim nr : N) : out N :=
   end.
 
 (* "x*y:z*t:..." : returns the stored loops, minstep, nbs *)
-Fixpoint xy_f v (fuel : nat) s (tmp nr_loops cap cur minstep nbs : N) (acc : list (N * N))
+Fixpoint xy_f v (fuel : nat) s (total tmp nr_loops cap cur minstep nbs : N) (acc : list (N * N))
   : out (list (N * N) * N * N) :=
   match fuel with
   | O => Fault FFuel
@@ -301,9 +309,10 @@ Fixpoint xy_f v (fuel : nat) s (tmp nr_loops cap cur minstep nbs : N) (acc : lis
     if cap <=? cur then Fault FLoops else
     let acc' := acc ++ [(step, nb)] in
     let minstep' := if step <? minstep then step else minstep in
+    if fix_width_overflow && (total / nbs <? nb) then Rej else
     let nbs' := (nbs * nb) mod T64 in
     if (c3 =? 41) || (c3 =? 32) then Ret (acc', minstep', nbs')
-    else xy_f v f s (t3 + 1) nr_loops cap (cur + 1) minstep' nbs' acc'
+    else xy_f v f s total (t3 + 1) nr_loops cap (cur + 1) minstep' nbs' acc'
   end.
 
 (* for(i=0; ; i++) { if (!data->level[i].arity) ... } *)
@@ -376,8 +385,7 @@ Fixpoint ty_loops_f (lv : list level) (ds : list N) (nr : nat) (n : nat) (cur : 
     let step := (total / lv_width lm) mod U32 in
     if lv_width lp =? 0 then Fault FDiv else
     let nb := (lv_width lm / lv_width lp) mod U32 in
-    if nb =? 0 then Fault FAssert else
-    if step =? 0 then Fault FAssert else
+    if (nb =? 0) || (step =? 0) then (if fix_intlv_deeper then Rej else Fault FAssert) else
     ty_loops_f lv ds nr n' (S cur) total (if step <? minstep then step else minstep) ((nbs * nb) mod T64)
                (acc ++ [(step, nb)])
   end.
@@ -409,7 +417,7 @@ Definition interleave v s lv (attr length total : N) : out (list N) :=
   let minstep0 := total mod U32 in
   do* c := rdo s attr in
   do* lm := (if isdigit c
-             then xy_f v (S (List.length s)) s attr nr_loops cap 0 minstep0 1 []
+             then xy_f v (S (List.length s)) s total attr nr_loops cap 0 minstep0 1 []
              else do* ds := ty_f v (S (List.length s)) s lv attr (attr + length) cap 0 [] in
                   ty_loops_f lv ds (N.to_nat nr_loops) (N.to_nat nr_loops) 0 total minstep0 1 []) in
   let '(loops, minstep, nbs) := lm in
@@ -444,7 +452,8 @@ Inductive stepres := SCont (st : pstate) (pos : N) | SBreak (st : pstate).
 
 Definition keep_istr (new old : option (N * N)) := match new with Some x => Some x | None => old end.
 
-Definition disallowed_level (ty : N) : bool := (ty =? HWLOC_OBJ_MACHINE) || disallowed_io ty.
+Definition disallowed_level (ty : N) : bool :=
+  (ty =? HWLOC_OBJ_MACHINE) || disallowed_io ty || (fix_memcache_level && (ty =? HWLOC_OBJ_MEMCACHE)).
 
 Definition set_last_att (f : attached -> attached) (l : list attached) : list attached :=
   match rev l with [] => [] | x :: r => rev (f x :: r) end.
@@ -511,6 +520,7 @@ Definition step v s (st : pstate) (pos : N) : out stepres :=
     let item := fst r in let np := snd r in
     if np =? pos then Rej else
     if item =? 0 then Rej else
+    if fix_width_overflow && (Strto.ULONG_MAX / item <? st_tot st) then Rej else
     let tot := (st_tot st * item) mod T64 in
     do* lv := lv_upd lv count (fun l => set_mem 0 0 (set_idx None None (set_width tot l))) in
     do* cn := rdo s np in
